@@ -65,6 +65,18 @@ Theorem C01_fast_edges_are_callback_results : forall build sizes names jds pis c
 Proof. exact gen_fast_C02. Qed.
 Print Assumptions C01_fast_edges_are_callback_results.
 
+(* the emitted edges of every motif instance only connect stubs of its own group (second half of
+   c01_check; with the slot theorem this is why no vertex outside 0..N-1 can appear) *)
+Theorem C01_edges_stay_inside_their_group : forall build cs results,
+  Results build cs results -> BuildClosed build -> Closed (map flat_call cs) results.
+Proof. exact results_closed. Qed.
+Print Assumptions C01_edges_stay_inside_their_group.
+
+Theorem C01_closed_checker_iff : forall calls results,
+  closed_okb calls results = true <-> Closed calls results.
+Proof. exact closed_okb_iff. Qed.
+Print Assumptions C01_closed_checker_iff.
+
 (* under the hypotheses a run can only fail inside a callback or on a missing name *)
 Theorem C01_fast_total : forall build sizes nms jds pis,
   Valid sizes (singleton_mis (ncols jds)) jds -> PisOk jds pis ->
